@@ -370,3 +370,232 @@ def ops_in(e, acc=None):
     for x in subexprs(e):
         ops_in(x, acc)
     return acc
+
+
+# ------------------------------------------------------------------------------ assignment targets
+#
+# An assignable target uses the same descriptor forms as expressions, restricted to
+#   sig | slice | idx | cat | bsel | wsel | arr | u as_s/as_u | rol | ror
+# `lhs_map` gives, for each bit position of the target expression, the (env index, bit) it
+# addresses or None when the position falls outside every signal (such bits are dropped).
+
+def lhs_map(L, env, vals):
+    k = L[0]
+    if k == "sig":
+        return [(L[1], b) for b in range(env[L[1]][0])]
+    if k == "u" and L[1] in ("as_s", "as_u"):
+        return lhs_map(L[2], env, vals)
+    if k == "idx":
+        m = lhs_map(L[1], env, vals)
+        return [m[L[2] % len(m)]]
+    if k == "slice":
+        m = lhs_map(L[1], env, vals)
+        start, stop, _ = slice(L[2], L[3]).indices(len(m))
+        return m[start:stop]
+    if k == "sslice":
+        m = lhs_map(L[1], env, vals)
+        return [m[i] for i in range(*slice(L[2], L[3], L[4]).indices(len(m)))]
+    if k == "cat":
+        out = []
+        for p in L[1]:
+            out += lhs_map(p, env, vals)
+        return out
+    if k in ("rol", "ror"):
+        m = lhs_map(L[1], env, vals)
+        w = len(m)
+        if w == 0:
+            return []
+        n = (L[2] if k == "rol" else -L[2]) % w
+        # result bit i of rotate_left(n) is operand bit (i - n) mod w
+        return [m[(i - n) % w] for i in range(w)]
+    if k in ("bsel", "wsel"):
+        m = lhs_map(L[1], env, vals)
+        off = evaluate(L[2], env, vals)
+        if k == "wsel":
+            off *= L[3]
+        return [m[off + i] if off + i < len(m) else None for i in range(L[3])]
+    if k == "arr":
+        i = evaluate(L[2], env, vals)
+        if not 0 <= i < len(L[1]):
+            raise Ill("array index out of range")
+        m = lhs_map(L[1][i], env, vals)
+        w, _ = shape_of(L, env)
+        return (m + [None] * w)[:w]
+    raise Ill(f"not assignable: {k}")
+
+
+def lhs_signals(L, acc=None):
+    """env indices of all signals that can be written through L."""
+    acc = set() if acc is None else acc
+    k = L[0]
+    if k == "sig":
+        acc.add(L[1])
+    elif k == "u":
+        lhs_signals(L[2], acc)
+    elif k in ("idx", "slice", "sslice", "rol", "ror", "bsel", "wsel"):
+        lhs_signals(L[1], acc)
+    elif k == "cat":
+        for p in L[1]:
+            lhs_signals(p, acc)
+    elif k == "arr":
+        for p in L[1]:
+            lhs_signals(p, acc)
+    return acc
+
+
+def assign_bits(L, env, vals, rhs_value, pending):
+    """Apply `L = rhs_value` (an exact integer, already the mathematical RHS value) to `pending`
+    (dict env-index -> bit pattern). Only addressed bits change; out-of-target bits are dropped."""
+    m = lhs_map(L, env, vals)
+    for pos, tb in enumerate(m):
+        if tb is None:
+            continue
+        k, b = tb
+        bit = (rhs_value >> pos) & 1       # Python >> on a negative int sign-extends: the RHS is
+        cur = pending[k]                   # extended according to its own signedness
+        pending[k] = (cur & ~(1 << b)) | (bit << b)
+
+
+# ------------------------------------------------------------------------------ statements
+#
+#   ["assign", L, E]
+#   ["if", [[E, body], ...], else_body | None]
+#   ["switch", E, [[patterns | None, body], ...]]        None = Default, [] = Case() (never matches)
+#   ["fsm", f, [[state, body], ...]]                     program["fsms"][f] = {"dom", "init", "states"}
+#   ["next", f, state]
+#   ["print", fmt...] / ["assert", ...]                  handled by the hooks argument
+#
+# program = {"env": [[w, s], ...], "dom": {env index: domain name}, "init": {env index: value},
+#            "rl": [env indices that are reset-less], "fsms": [...], "ongoing": {env index: [f, state]},
+#            "body": [...]}
+
+class Interp:
+    def __init__(self, prog):
+        self.p = prog
+        self.env = prog["env"]
+        self.dom = {int(k): v for k, v in prog["dom"].items()}
+        self.init = {int(k): v for k, v in prog["init"].items()}
+        self.rl = set(prog.get("rl", []))
+        self.fsms = prog.get("fsms", [])
+        self.ongoing = {int(k): v for k, v in prog.get("ongoing", {}).items()}
+        self.branches = {}          # id(node) -> set of branches taken (for the non-triviality rule)
+
+    def initial(self, inputs):
+        vals = [0] * len(self.env)
+        for k, v in inputs.items():
+            vals[k] = v
+        for k, v in self.init.items():
+            vals[k] = v
+        fstate = [self.fsm_init(f) for f in range(len(self.fsms))]
+        return vals, fstate
+
+    def fsm_init(self, f):
+        fs = self.fsms[f]
+        return fs["init"] if fs.get("init") is not None else fs["states"][0]
+
+    def _pat(self, k):
+        w, s = self.env[k]
+        return lambda v: bits(v, w)
+
+    def run(self, vals, fstate, domain, hooks=None):
+        """One evaluation of all statements of `domain` reading `vals`/`fstate`.
+        Returns (new values for the domain's targets, new fsm states for FSMs of that domain)."""
+        pending = {}
+        for k, d in self.dom.items():
+            if d == domain:
+                w, s = self.env[k]
+                base = self.init[k] if domain == "comb" else vals[k]
+                pending[k] = bits(base, w)
+        nstate = list(fstate)
+        self._body(self.p["body"], vals, fstate, domain, pending, nstate, hooks)
+        out = {}
+        for k, pat in pending.items():
+            w, s = self.env[k]
+            out[k] = wrap(pat, w, s)
+        return out, nstate
+
+    def _body(self, body, vals, fstate, domain, pending, nstate, hooks):
+        for st in body:
+            k = st[0]
+            if k == "assign":
+                tg = lhs_signals(st[1])
+                doms = {self.dom[t] for t in tg}
+                if doms == {domain}:
+                    assign_bits(st[1], self.env, vals, evaluate(st[2], self.env, vals), pending)
+                elif domain in doms:
+                    raise Ill("assignment mixes domains")
+            elif k == "if":
+                taken = None
+                for i, (cond, sub) in enumerate(st[1]):
+                    if evaluate(cond, self.env, vals) != 0:
+                        taken = i
+                        self._body(sub, vals, fstate, domain, pending, nstate, hooks)
+                        break
+                else:
+                    if st[2] is not None:
+                        taken = "else"
+                        self._body(st[2], vals, fstate, domain, pending, nstate, hooks)
+                self.branches.setdefault(id(st), set()).add(taken)
+            elif k == "switch":
+                v = evaluate(st[1], self.env, vals)
+                w, s = shape_of(st[1], self.env)
+                taken = None
+                for i, (pats, sub) in enumerate(st[2]):
+                    if pats is None or matches(v, w, s, pats):
+                        taken = i
+                        self._body(sub, vals, fstate, domain, pending, nstate, hooks)
+                        break
+                self.branches.setdefault(id(st), set()).add(taken)
+            elif k == "fsm":
+                f = st[1]
+                for name, sub in st[2]:
+                    if name == fstate[f]:
+                        self.branches.setdefault(id(st), set()).add(name)
+                        self._body(sub, vals, fstate, domain, pending, nstate, hooks)
+                        break
+            elif k == "next":
+                if self.fsms[st[1]]["dom"] == domain:
+                    nstate[st[1]] = st[2]
+            else:
+                if hooks is not None:
+                    hooks(st, vals, domain)
+
+    def settle(self, vals, fstate):
+        """Combinational fixed point (designs are acyclic by construction)."""
+        vals = list(vals)
+        for _ in range(12):
+            for k, (f, name) in self.ongoing.items():
+                vals[k] = int(fstate[f] == name)
+            new, _ = self.run(vals, fstate, "comb")
+            changed = False
+            for k, v in new.items():
+                if vals[k] != v:
+                    vals[k] = v
+                    changed = True
+            if not changed:
+                return vals
+        raise OracleBug("combinational logic of an acyclic program did not settle")
+
+    def edge(self, vals, fstate, domain, rst=False, hooks=None):
+        """Active clock edge of `domain` on settled `vals`. Returns settled post-edge (vals, fstate)."""
+        new, nstate = self.run(vals, fstate, domain, hooks)
+        vals = list(vals)
+        for k, v in new.items():
+            vals[k] = self.init[k] if (rst and k not in self.rl) else v
+        if rst:
+            for f, fs in enumerate(self.fsms):
+                if fs["dom"] == domain:
+                    nstate[f] = self.fsm_init(f)
+        return self.settle(vals, nstate), nstate
+
+    def async_reset(self, vals, fstate, domain):
+        """Rising edge of an asynchronous reset: registers of the domain load their inits."""
+        vals = list(vals)
+        nstate = list(fstate)
+        for k, d in self.dom.items():
+            if d == domain and k not in self.rl:
+                vals[k] = self.init[k]
+        for f, fs in enumerate(self.fsms):
+            if fs["dom"] == domain:
+                nstate[f] = self.fsm_init(f)
+        return self.settle(vals, nstate), nstate
